@@ -242,7 +242,7 @@ def gen(tier: str, seed: int) -> list[Case]:
         for mask in default_masks(shape):
             sigs.append(sg.build(shape, mask))
     n_exh = len(sigs)
-    n_random = 1500 if tier == "quick" else 40000
+    n_random = 1500 if tier == "quick" else 160000
     all_shapes = list(shapes(10))
     big = [s for s in all_shapes if len(s) > 4]
     for _ in range(n_random):
